@@ -57,6 +57,11 @@ def render(op):
         return "print(E(function(){ DV.set%s(%s, %s, %s); return 'ok'; }));" % (name, t[2], js_val(t[4]), "true" if t[3] == "1" else "false")
     if k == "cw":
         return "print(E(function(){ V[%s].copyWithin(%s, %s%s); return 'ok'; }));" % (t[1], t[2], t[3], "" if t[4] == "-" else ", " + t[4])
+    if k == "scopy":
+        # the same copy with the source bytes held in a SharedArrayBuffer (a mirror of B with the same view geometry): the byte
+        # model has no notion of sharing, so the model's answer for `copy` is the expected answer here too
+        return ("print(E(function(){ var sv = V[%s]; sv.keys(); var sab = new SharedArrayBuffer(B.byteLength); new Uint8Array(sab).set(new Uint8Array(B)); "
+                "var mv = new sv.constructor(sab, sv.byteOffset, sv.length); V[%s].set(mv, %s); return 'ok'; }));" % (t[2], t[1], t[3]))
     if k == "copy":
         return "print(E(function(){ V[%s].set(V[%s], %s); return 'ok'; }));" % (t[1], t[2], t[3])
     if k == "detach":
@@ -111,7 +116,7 @@ def gen_history(r, n_ops):
                 val = "d:" + dbits(INTERESTING[r() % len(INTERESTING)])
             ops.append("set %d %d %s" % (r() % nviews, r() % 7, val))
         elif c < 86 and nviews > 1:
-            ops.append("copy %d %d %d" % (r() % nviews, r() % nviews, r() % 3))
+            ops.append("%s %d %d %d" % (["copy", "copy", "scopy"][r() % 3], r() % nviews, r() % nviews, r() % 3))
             ops.append("bytes")
         elif c < 89 and nviews:
             # copyWithin: overlapping either way, clamped arguments, optional end
@@ -128,6 +133,23 @@ def gen_history(r, n_ops):
                 val = "d:" + (dbits(INTERESTING[r() % len(INTERESTING)]) if r() % 2 else "%016x" % r())
             ops.append("dvset %s %d %d %s" % (k, r() % (size + 3), r() % 2, val))
     ops.append("bytes")
+    return ops
+
+
+def shared_copy_history(r):
+    """bulk copies from a SharedArrayBuffer into an ordinary buffer at every misalignment: byte views of 9-30 bytes at offsets 0-9"""
+    ops = ["buf 48 -"]
+    for i in range(48):
+        ops.append("dvset u8 %d 1 d:%s" % (i, dbits(float((i * 37 + 11) % 256))))
+    nv = 0
+    for _ in range(6):
+        so = r() % 10
+        to = so % 8 + 8 * (r() % 2) if r() % 3 else r() % 10
+        ln = 9 + r() % 22
+        if so + ln > 48 or to + ln > 48:
+            continue
+        ops += ["view u8 %d %d" % (so, ln), "view u8 %d %d" % (to, ln), "scopy %d %d 0" % (nv + 1, nv), "bytes"]
+        nv += 2
     return ops
 
 
@@ -149,6 +171,7 @@ def run(ck):
     r = lib.rng(ck.seed)
     quick = ck.tier == "quick"
     hists = [gen_history(r, 25 + r() % 40) for _ in range(250 if quick else 5000)]
+    hists += [shared_copy_history(r) for _ in range(40 if quick else 600)]
     # the history is interpreted by the model first: view indices refer to successfully created views, so the
     # generator's guess `nviews` may exceed what exists; such requests answer bad-op in the model and are dropped
     lines = []
